@@ -817,3 +817,316 @@ def check_extract_output(case):
     if sorted(got_rows, key=key) != sorted(exp_rows, key=key):
         F('C20.output.special_lines_per_special_variable', f'got {got_rows[:4]}... expected {exp_rows[:4]}...')
     return out
+
+
+# ------------------------------------------------------------------------------------------------ C17 stochastic / robust
+def _stoch_setup(case):
+    eao = eao_mod()
+    rng = random.Random(case['seed'])
+    T = case['T']
+    k = case['k']                     # first future step
+    start = pd.Timestamp('2021-01-01')
+    tg = eao.assets.Timegrid(start, start + pd.Timedelta(T, 'h'), freq='h')
+    pts = list(tg.timepoints) + [tg.end]
+    A, B = eao.assets.Node('A'), eao.assets.Node('B')
+    assets = [eao.assets.SimpleContract(name='m', nodes=A, price='p', min_cap=-2., max_cap=2.),
+              eao.assets.Storage(name='s', nodes=A, size=3., cap_in=1., cap_out=1., eff_in=.9, start_level=1., end_level=0.)]
+    if case.get('transport'):
+        assets += [eao.assets.Transport(name='t', nodes=[A, B], min_cap=0., max_cap=1.5, efficiency=.9),
+                   eao.assets.SimpleContract(name='mb', nodes=B, price='q', min_cap=-1., max_cap=0., extra_costs=.1)]
+    rng.shuffle(assets)
+    pf = eao.portfolio.Portfolio(assets)
+    base = {'p': np.asarray([float(rng.randint(1, 9)) for _ in range(T)]), 'q': np.asarray([float(rng.randint(1, 9)) for _ in range(T)])}
+    samples = []
+    for _ in range(case['S']):
+        s = {}
+        for key, v in base.items():
+            w = v.copy()
+            if not case.get('identical'):
+                w[k:] = [float(rng.randint(1, 9)) for _ in range(T - k)]
+            s[key] = w
+        samples.append(s)
+    return eao, tg, pts, pf, base, samples
+
+
+def check_slp(case):
+    """C17: two-stage stochastic problem built by make_slp for S sampled futures + the original one, all sharing the
+    present prices:  EEV(s0) <= V_slp <= mean of the per-scenario optima;  equality with the deterministic optimum when
+    all scenarios coincide;  one copy of the future variables per sample, present variables shared."""
+    from copy import deepcopy
+    eao, tg, pts, pf, base, samples = _stoch_setup(case)
+    out = []
+    k, T = case['k'], case['T']
+    op = pf.setup_optim_problem(base, tg)
+    res = op.optimize()
+    if isinstance(res, str):
+        return out
+    n0 = len(op.c)
+    m0 = op.mapping
+    first = m0[~m0.index.duplicated(keep='first')]
+    fut = first['time_step'].values >= k
+    n_f = int(fut.sum())
+    op_slp = eao.stoch_lin_prog.make_slp(deepcopy(op), pf, tg, pts[k], [dict(s) for s in samples])
+    scen = [base] + samples
+    S1 = len(scen)
+    F = lambda name, detail: out.append(fail(name, 'stoch_lin_prog:make_slp', case, dict(case), detail))
+    if len(op_slp.c) != n0 + case['S'] * n_f:
+        F('C17.slp.present_shared_future_copied_per_sample', f'{len(op_slp.c)} variables, expected {n0} + {case["S"]} x {n_f}')
+        return out
+    # structure: block s of the rows couples the shared present variables with the s-th copy of the future ones
+    A0 = op.A.toarray() if hasattr(op.A, 'toarray') else np.asarray(op.A)
+    A1 = op_slp.A.toarray()
+    nr = A0.shape[0]
+    cs = [pf.setup_optim_problem(s, tg, costs_only=True) for s in samples]
+    exp_c = np.concatenate([np.where(fut, op.c / S1, op.c)] + [c[fut] / S1 for c in cs])
+    if not np.allclose(op_slp.c, exp_c):
+        F('C17.slp.costs_present_once_future_mean_over_scenarios', 'cost vector differs from [c_present, c_future/(S+1), c_s[future]/(S+1) ...]')
+    ok = A1.shape == (nr * S1, n0 + case['S'] * n_f)
+    if ok:
+        for s in range(S1):
+            blk = A1[s * nr:(s + 1) * nr, :]
+            exp = np.zeros_like(blk)
+            exp[:, :n0][:, ~fut] = A0[:, ~fut]
+            if s == 0:
+                exp[:, :n0][:, fut] = A0[:, fut]
+            else:
+                exp[:, n0 + (s - 1) * n_f:n0 + s * n_f] = A0[:, fut]
+            ok = ok and np.allclose(blk, exp)
+    if not ok:
+        F('C17.slp.rows_repeated_per_scenario_on_its_own_future_copy', 'matrix is not [A | 0 ; Ap 0 Af 0 ; ...]')
+    if not (np.allclose(op_slp.b, np.tile(op.b, S1)) and op_slp.cType == op.cType * S1):
+        F('C17.slp.rows_repeated_per_scenario_on_its_own_future_copy', 'b / cType not repeated per scenario')
+    exp_l = np.concatenate([op.l] + [op.l[fut]] * case['S'])
+    exp_u = np.concatenate([op.u] + [op.u[fut]] * case['S'])
+    if not (np.allclose(op_slp.l, exp_l) and np.allclose(op_slp.u, exp_u)):
+        F('C17.slp.bounds_copied_per_sample', 'bounds')
+    res_slp = op_slp.optimize()
+    if isinstance(res_slp, str):
+        F('C17.slp.solvable_when_scenarios_are', f'SLP {res_slp}')
+        return out
+    V = []
+    xs = []
+    for s in scen:
+        r = pf.setup_optim_problem(s, tg).optimize()
+        V.append(r.value)
+        xs.append(r.x)
+    ws = float(np.mean(V))
+    tol = 1e-5 * max(1., abs(ws))
+    if res_slp.value > ws + tol:
+        F('C17.slp.at_most_mean_of_scenario_optima', f'V_slp {res_slp.value} > mean of optima {ws}')
+    if case.get('identical') and abs(res_slp.value - res.value) > tol:
+        F('C17.slp.equals_deterministic_when_scenarios_coincide', f'V_slp {res_slp.value} vs deterministic {res.value}')
+    present = np.arange(T) < k
+    for s0 in range(min(S1, 2)):
+        vals = []
+        for s in scen:
+            r = pf.setup_optim_problem(s, tg, fix_time_window={'I': present, 'x': xs[s0]}).optimize()
+            if isinstance(r, str):
+                vals = None
+                break
+            vals.append(r.value)
+        if vals is not None and float(np.mean(vals)) > res_slp.value + tol:
+            F('C17.slp.at_least_expected_value_of_a_single_scenario_present', f'fixing the present of scenario {s0}: {np.mean(vals)} > V_slp {res_slp.value}')
+    # the reported value is the objective of the extended problem
+    if abs(res_slp.value - float(-np.dot(op_slp.c, res_slp.x))) > tol:
+        F('C17.slp.value_is_objective', 'value != -c.x')
+    return out
+
+
+def check_robust(case):
+    """C17: robust optimisation over cost samples: the worst-case value of the robust solution is at least that of every
+    single-scenario solution and at most the smallest per-scenario optimum."""
+    eao, tg, pts, pf, base, samples = _stoch_setup(case)
+    out = []
+    scen = [base] + samples
+    ops = [pf.setup_optim_problem(s, tg) for s in scen]
+    cs = [o.c.copy() for o in ops]
+    rs = [o.optimize() for o in ops]
+    if any(isinstance(r, str) for r in rs):
+        return out
+    op = ops[0]
+    rr = op.optimize(target='robust', samples=[c.copy() for c in cs])
+    F = lambda name, detail: out.append(fail(name, 'optimization:OptimProblem.optimize', case, dict(case), detail))
+    if isinstance(rr, str):
+        F('C17.robust.solvable', rr)
+        return out
+    worst = lambda x: min(float(-np.dot(c, x)) for c in cs)
+    wr = worst(rr.x)
+    tol = 1e-5 * max(1., abs(wr))
+    x = rr.x
+    if np.any(x < op.l - 1e-6) or np.any(x > op.u + 1e-6):
+        F('C17.robust.solution_feasible', 'bounds violated')
+    for s0, r in enumerate(rs):
+        if worst(r.x) > wr + tol:
+            F('C17.robust.worst_case_at_least_that_of_single_scenario_solutions', f'scenario {s0} solution has worst case {worst(r.x)} > robust {wr}')
+            break
+    if wr > min(r.value for r in rs) + tol:
+        F('C17.robust.worst_case_at_most_smallest_scenario_optimum', f'{wr} > {min(r.value for r in rs)}')
+    if case.get('identical') and abs(wr - rs[0].value) > tol:
+        F('C17.robust.equals_deterministic_when_scenarios_coincide', f'{wr} vs {rs[0].value}')
+    return out
+
+
+# ------------------------------------------------------------------------------------------------ C16 / C18 / C10 / C01 structured assets
+def _structured_parts(eao, rng, T, pts, win=None):
+    I, E, M = eao.assets.Node('inner'), eao.assets.Node('ext'), eao.assets.Node('mkt')
+    inner = [eao.assets.SimpleContract(name='src', nodes=I, price='p', min_cap=0., max_cap=2., start=pts[0], end=pts[T]),
+             eao.assets.Storage(name='sto', nodes=I, size=3., cap_in=1., cap_out=1.5, eff_in=.9),
+             eao.assets.Transport(name='pipe', nodes=[I, E], min_cap=0., max_cap=2., efficiency=.95)]
+    outer = [eao.assets.SimpleContract(name='sale', nodes=E, price='q', min_cap=-1.5, max_cap=0.),
+             eao.assets.Transport(name='link', nodes=[E, M], min_cap=0., max_cap=1., efficiency=.9, costs_const=.1),
+             eao.assets.SimpleContract(name='mk', nodes=M, price='r', min_cap=-1., max_cap=0.)]
+    rng.shuffle(inner)
+    return inner, outer, (I, E, M)
+
+
+def check_structured(case):
+    """C16: a structured asset wrapping a sub-portfolio gives the same optimal value and external dispatch as the flat
+    portfolio of the same assets; C01: balance at its external node in the reported dispatch; C18: supergradient property
+    of the nodal prices reported for a portfolio containing a structured asset; C10: wrapping does not change what the
+    wrapped asset objects produce afterwards."""
+    eao = eao_mod()
+    out = []
+    rng = random.Random(case['seed'])
+    T = case['T']
+    start = pd.Timestamp('2021-01-01')
+    tg = eao.assets.Timegrid(start, start + pd.Timedelta(T, 'h'), freq='h')
+    pts = list(tg.timepoints) + [tg.end]
+    prices = {k: np.asarray([float(rng.randint(1, 9)) for _ in range(T)]) for k in ('p', 'q', 'r')}
+    state = rng.getstate()
+    inner, outer, (I, E, M) = _structured_parts(eao, rng, T, pts)
+    F = lambda name, detail: out.append(fail(name, 'portfolio:StructuredAsset.setup_optim_problem', case, dict(case), detail))
+    flat = eao.portfolio.Portfolio(inner + outer)
+    opf, rf = optimize(flat, prices, tg)
+    a, b = case.get('window', (None, None))
+    sa = eao.portfolio.StructuredAsset(name='wrapped', portfolio=eao.portfolio.Portfolio(inner), nodes=E,
+                                       start=None if a is None else pts[a], end=None if b is None else pts[b])
+    order = [sa] + outer if case.get('struct_first', True) else outer + [sa]
+    pfs = eao.portfolio.Portfolio(order)
+    ops, rs = optimize(pfs, prices, tg)
+    # C10: the wrapped objects afterwards, in a flat portfolio, give the problem fresh objects give
+    rng.setstate(state)
+    inner2, outer2, _ = _structured_parts(eao, rng, T, pts)
+    op_a = eao.portfolio.Portfolio(inner + outer).setup_optim_problem(prices, tg)
+    op_b = eao.portfolio.Portfolio(inner2 + outer2).setup_optim_problem(prices, tg)
+    same = len(op_a.c) == len(op_b.c) and np.allclose(op_a.c, op_b.c) and np.allclose(op_a.l, op_b.l) and np.allclose(op_a.u, op_b.u) and \
+        op_a.A.shape == op_b.A.shape and abs(op_a.A - op_b.A).max() < 1e-12
+    if not same:
+        F('C10.structured.wrapped_assets_unchanged_by_set_up', f'after wrapping with window {case.get("window")}: {len(op_a.c)} variables vs {len(op_b.c)} from fresh objects')
+    if isinstance(rf, str) or isinstance(rs, str):
+        return out
+    o = eao.io.extract_output(pfs, ops, rs)
+    if a is None and b is None:
+        if abs(rf.value - rs.value) > 1e-5 * max(1., abs(rf.value)):
+            F('C16.structured.same_value_as_flat_portfolio', f'flat {rf.value} structured {rs.value}')
+        of = eao.io.extract_output(flat, opf, rf)
+        # external dispatch: what the wrapped assets deliver at the external node
+        ext_flat = of['dispatch'][[c for c in of['dispatch'].columns if c.endswith('(ext)') and c.split(' (')[0] in [x.name for x in inner]]].sum(axis=1).values
+        ext_str = o['dispatch'][[c for c in o['dispatch'].columns if c.startswith('wrapped')]].sum(axis=1).values
+        # (the optimum need not be unique; compare the external dispatch only through its value: re-check balance instead)
+    d = o['dispatch']
+    for node in ('ext', 'mkt'):
+        cols = [c for c in d.columns if c.endswith('(' + node + ')')]
+        s = d[cols].sum(axis=1).values
+        if len(cols) and np.abs(s).max() > 1e-5:
+            F('C01.structured.external_node_balance_in_reported_dispatch', f'node {node}: imbalance {np.abs(s).max()}')
+    # C18 nodal prices with a structured asset in the portfolio
+    pt = o['prices']
+    for node in ('ext', 'mkt'):
+        col = 'nodal price: ' + node
+        for t in case.get('probe', [0, T - 1]):
+            if col not in pt.columns or not np.isfinite(pt[col].iloc[t]):
+                F('C18.place.price_reported_for_active_step', f'{col} step {t}: none reported')
+                continue
+            pr = float(pt[col].iloc[t])
+            for dlt in (0.25, -0.25):
+                inj = eao.assets.SimpleContract(name='inj', nodes=E if node == 'ext' else M, min_cap=dlt, max_cap=dlt, start=pts[t], end=pts[t + 1])
+                r2 = optimize(eao.portfolio.Portfolio(order + [inj]), prices, tg)[1]
+                if isinstance(r2, str):
+                    continue
+                if r2.value > rs.value + pr * dlt + 1e-4 * max(1., abs(rs.value)):
+                    F('C18.supergradient', f'structured portfolio, {col} step {t} d={dlt}: V(d)={r2.value} > V+price*d={rs.value + pr * dlt}')
+    return out
+
+
+# ------------------------------------------------------------------------------------------------ C05 storage physics on optimised solutions
+def check_storage_physics(case):
+    """C05 on real optimised solutions: physical level (start + eff x charged - discharged + accumulated inflow) within
+    [0, size] at every step of the storage's window and = end level at its last step (per block when blocks are used);
+    per-step charge / discharge within rate x step length; reported fill level = physical level; no simultaneous in/out
+    with that option; with max_store_duration the level is never non-zero for longer than that."""
+    eao = eao_mod()
+    out = []
+    rng = random.Random(case['seed'])
+    T = case['T']
+    start = pd.Timestamp('2021-01-01')
+    tg = eao.assets.Timegrid(start, start + pd.Timedelta(T, 'h'), freq='h')
+    pts = list(tg.timepoints) + [tg.end]
+    A, B = eao.assets.Node('A'), eao.assets.Node('B')
+    a, b = case.get('window', (0, T))
+    kw = dict(size=case.get('size', 3.), cap_in=case.get('cap_in', 1.), cap_out=case.get('cap_out', 1.5), eff_in=case.get('eff', 1.),
+              start_level=case.get('start_level', 0.), end_level=case.get('end_level', 0.), inflow=case.get('inflow', 0.),
+              cost_in=case.get('cost_in', 0.), cost_out=0., no_simult_in_out=case.get('no_simult', False),
+              max_store_duration=case.get('max_dur'), block_size=case.get('block'), start=pts[a], end=pts[b])
+    two = case.get('two_nodes', False)
+    sto = eao.assets.Storage(name='sto', nodes=[A, B] if two else A, **kw)
+    assets = [sto, eao.assets.SimpleContract(name='m', nodes=A, price='p', min_cap=-5., max_cap=5.)]
+    if two:
+        assets.append(eao.assets.SimpleContract(name='mb', nodes=B, price='q', min_cap=-5., max_cap=5.))
+    if case.get('order'):
+        assets.reverse()
+    prices = {'p': np.asarray([float(rng.randint(1, 9)) for _ in range(T)]), 'q': np.asarray([float(rng.randint(1, 9)) for _ in range(T)])}
+    pf = eao.portfolio.Portfolio(assets)
+    op = pf.setup_optim_problem(prices, tg)
+    res = op.optimize()
+    F = lambda name, detail: out.append(fail(name, 'assets:Storage.setup_optim_problem', case, dict(case), detail))
+    n = b - a
+    dt = np.ones(n)
+    infl = kw['inflow'] * dt
+    # block structure by the statement: blocks of `block` hours counted from the window start
+    if case.get('block'):
+        L = int(pd.Timedelta(case['block']) / pd.Timedelta(1, 'h'))
+        blocks = [(i, min(i + L, n)) for i in range(0, n, L)]
+    else:
+        blocks = [(0, n)]
+    if isinstance(res, str):
+        # a schedule that always exists when cap_out covers the inflow, start = end level and nothing else is required:
+        # release the inflow at every step
+        if kw['start_level'] == kw['end_level'] and kw['cap_out'] >= kw['inflow'] and kw['start_level'] <= kw['size'] and not case.get('max_dur'):
+            F('C05.feasible_schedule_rejected', f'optimiser reports {res}; releasing the inflow at every step is a physical schedule')
+        return out
+    m = op.mapping
+    rows = m[(m['asset'] == 'sto') & (m['type'] == 'd')]
+    rows = rows[~rows.index.duplicated(keep='first')]
+    ch, dis = np.zeros(T), np.zeros(T)
+    for i, r in rows.iterrows():
+        ch[int(r['time_step'])] += max(0., -res.x[i])
+        dis[int(r['time_step'])] += max(0., res.x[i])
+    tol = 1e-5
+    if np.any(ch[a:b] > kw['cap_in'] * dt + tol) or np.any(dis[a:b] > kw['cap_out'] * dt + tol) or np.any(ch[:a] > tol) or np.any(ch[b:] > tol) \
+            or np.any(dis[:a] > tol) or np.any(dis[b:] > tol):
+        F('C05.rates.per_step_within_rate_times_step_length', f'charge {ch.tolist()} discharge {dis.tolist()}')
+    level = np.zeros(n)
+    for (i0, i1) in blocks:
+        lv = kw['start_level']
+        for t in range(i0, i1):
+            lv += kw['eff_in'] * ch[a + t] - dis[a + t] + infl[t]
+            level[t] = lv
+        if abs(level[i1 - 1] - kw['end_level']) > 1e-4:
+            F('C05.level.ends_at_end_level', f'block {i0}-{i1}: level {level[i1 - 1]} at its last step, end level {kw["end_level"]}')
+    if np.any(level < -1e-4) or np.any(level > kw['size'] + 1e-4):
+        F('C05.level.within_zero_and_size', f'physical level {level.round(4).tolist()} size {kw["size"]}')
+    if not case.get('block'):
+        rep = np.asarray(sto.fill_level(op, res), dtype=float)[a:b]
+        if not np.allclose(rep, level, atol=1e-4):
+            F('C05.fill_level.reported_equals_physical', f'reported {rep.round(4).tolist()} physical {level.round(4).tolist()}')
+    if case.get('no_simult') and np.any((ch > 1e-5) & (dis > 1e-5)):
+        F('C05.nosimult.never_both', f'charge {ch.tolist()} discharge {dis.tolist()}')
+    if case.get('max_dur'):
+        run = 0.
+        for t in range(n):
+            run = run + dt[t] if level[t] > 1e-4 else 0.
+            if run > case['max_dur'] + 1e-9:
+                F('C05.duration.level_not_nonzero_longer_than_max', f'level {level.round(4).tolist()} non-zero for {run} > {case["max_dur"]}')
+                break
+    return out
